@@ -145,16 +145,18 @@ namespace PM
 
 abbrev Parser := List (String × Task)
 
-/-- `Parser.add`: route by uuid, add, hand the task back and discard it when complete. -/
-def Parser.add (p : Parser) (m : PMsg) : Except Err (List Task × Parser) := do
+/-- `Parser.add`: route by uuid, add, hand the task back and discard it when complete.
+The handed-back task is tagged with its uuid (in Python the `Task` carries it inside its
+messages; the tag is what lets theorems say *which* task was returned). -/
+def Parser.add (p : Parser) (m : PMsg) : Except Err (List (String × Task) × Parser) := do
   let cur := (p.lookup m.uuid).getD {}
   let t ← cur.add m
   let rest := p.filter (fun e => e.1 != m.uuid)
-  if t.isComplete then pure ([t], rest) else pure ([], (m.uuid, t) :: rest)
+  if t.isComplete then pure ([(m.uuid, t)], rest) else pure ([], (m.uuid, t) :: rest)
 
 /-- `Parser.parse_stream` up to the point where the input ends: the tasks yielded so far (in
 order) and the parser; the first error aborts, as the Python generator does. -/
-def Parser.feed : Parser → List PMsg → Except Err (List Task × Parser)
+def Parser.feed : Parser → List PMsg → Except Err (List (String × Task) × Parser)
   | p, [] => pure ([], p)
   | p, m :: ms => do
     let (done, p') ← p.add m
@@ -162,8 +164,8 @@ def Parser.feed : Parser → List PMsg → Except Err (List Task × Parser)
     pure (done ++ done', p'')
 
 /-- `parse_stream`: completed tasks as they complete, then the incomplete ones. -/
-def parseStream (ms : List PMsg) : Except Err (List Task) := do
+def parseStream (ms : List PMsg) : Except Err (List (String × Task)) := do
   let (done, p) ← Parser.feed [] ms
-  pure (done ++ p.map (·.2))
+  pure (done ++ p)
 
 end PM
